@@ -2115,8 +2115,11 @@ class FileSet:
         """
         if max_interval is not None:
             max_interval = to_timedelta(max_interval, numbers_as="seconds")
-            start = to_datetime(start) - max_interval
-            end = to_datetime(end) + max_interval
+            # An open side of the period stays open:
+            if start is not None:
+                start = to_datetime(start) - max_interval
+            if end is not None:
+                end = to_datetime(end) + max_interval
 
         files1 = list(
             self.find(start, end, filters=filters)
